@@ -50,6 +50,11 @@ Definition FreeName (w : world) (m : N) (path : list N) : Prop :=
   exists x, nth_opt (w_models w) (N.to_nat m) = Some x /\ assoc_get path (m_idents x) = None.
 
 
+(* descendants through content lists: what can be navigated to from a *)
+Inductive Sub (w : world) (a : id) : id -> Prop :=
+| Sub_refl : Sub w a a
+| Sub_step p n c : Sub w a p -> w_nodes w p = Some n -> In (CElem c) (n_content n) -> Sub w a c.
+
 Section Defs.
 Variable T : tables.
 
